@@ -10,6 +10,12 @@ package lucene
 // on probe rows that hit every region cut out by the constants of the query and of the SQL,
 // the truth value of the SQL with the truth value of the query computed directly from the
 // tree (the oracle never calls the library).
+//
+// Run:
+//   echo '{"Replace": {"/repo/zz_verif_c03_test.go": "/verif/harness/c03_test.go"}}' > /tmp/ov_c03.json
+//   cd /repo && VERIF_REPORT=/tmp/rep_c03.json go test -tags verif -overlay /tmp/ov_c03.json -vet=off -count=1 -run 'TestVerifStandin_C03$' .
+// (VERIF_TIER=thorough for the large tier; VERIF_SHOW=<category> logs up to 40 inputs of one category.)
+// The file is self-contained: the shared machinery below is a private copy with the vc03 prefix.
 
 import (
 	"encoding/json"
@@ -1880,15 +1886,63 @@ func vc03BigInt(v vc03Val) bool {
 	return new(big.Rat).Abs(v.rat).Cmp(lim) > 0
 }
 
+// vc03Live: the features whose canonical single-feature witness currently fails the check.
+// A feature whose witness passes (e.g. because the defect has been fixed) is not used to
+// name a category any more.  nil = every feature counts.
+var vc03Live map[string]bool
+
+// vc03Witnesses: for every feature the smallest leaf that has this feature and no other.
+func vc03Witnesses() map[string]*vc03Node {
+	b, q, e := vc03StyleBare, vc03StyleQuoted, vc03StyleEscaped
+	sb, sd := vc03Str("b", b), vc03Str("d", b)
+	return map[string]*vc03Node{
+		"nan-inf-word-read-as-number":            vc03Leaf(vc03OpEq, "s", false, vc03Str("NaN", b)),
+		"phrase-escapes-unprocessed":             vc03Leaf(vc03OpEq, "s", false, vc03Str(`b\c`, q)),
+		"escaped-wildcard-char-read-as-wildcard": vc03Leaf(vc03OpEq, "s", false, vc03Str("b*", e)),
+		"escaped-backslash-dropped":              vc03Leaf(vc03OpEq, "s", false, vc03Str(`b\c`, e)),
+		"pattern-escaped-wildcard-char":          vc03Leaf(vc03OpLike, "s", false, vc03Pat(`b\**`)),
+		"pattern-literal-underscore-percent":     vc03Leaf(vc03OpLike, "s", false, vc03Pat("b_*")),
+		"quoted-star-bounds-read-as-open":        vc03Range("s", false, vc03Str("*", q), vc03Str("*", q), true, true),
+		"string-range-bound-with-comma":          vc03Range("s", false, vc03Str("b,c", q), sd, true, true),
+		"range-both-ends-open":                   vc03Range("n", true, vc03Open(), vc03Open(), true, true),
+		"string-range-open-end-as-between":       vc03Range("s", false, sb, vc03Open(), true, true),
+		"string-range-exclusive-as-between":      vc03Range("s", false, sb, sd, false, false),
+		"decimal-range-open-end-as-between":      vc03Range("n", true, vc03Open(), vc03Dec("1.5"), true, true),
+		"range-mixed-brackets":                   vc03Range("n", true, vc03Int("1"), vc03Int("5"), true, false),
+		"decimal-range-bound-rounded":            vc03Range("n", true, vc03Dec("0.001"), vc03Dec("0.002"), true, true),
+		"int-range-bound-through-float64":        vc03Range("n", true, vc03Dec("1.5"), vc03Int("9223372036854775807"), true, true),
+		"short-regexp-similar-to-vs-tilde":       vc03Leaf(vc03OpRegex, "s", false, vc03Re("b")),
+	}
+}
+
+// vc03FindLive runs the check on every witness.
+func vc03FindLive(fails func(*vc03Node) bool) map[string]bool {
+	live := map[string]bool{}
+	for f, w := range vc03Witnesses() {
+		if fails(w) {
+			live[f] = true
+		}
+	}
+	return live
+}
+
 func vc03LeafFeatures(l *vc03Node) []string {
 	var fs []string
 	add := func(f string) {
+		if vc03Live != nil && !vc03Live[f] {
+			return
+		}
 		for _, x := range fs {
 			if x == f {
 				return
 			}
 		}
 		fs = append(fs, f)
+	}
+	for _, v := range l.vals {
+		if v.kind == vc03KRe && len(v.text) < 2 {
+			add("short-regexp-similar-to-vs-tilde")
+		}
 	}
 	for _, v := range l.vals {
 		if v.kind == vc03KStr {
@@ -2124,6 +2178,10 @@ func TestVerifStandin_C03(t *testing.T) {
 		add(vc03RandTree(rng, d), rng.Intn(2) == 0, "random")
 	}
 	nRandPart := len(queries) - nLeafPart - nStructPart
+
+	// ---- which known root causes are still present? (only used to name categories) ----
+	vc03Live = nil
+	vc03Live = vc03FindLive(func(w *vc03Node) bool { return vc03CheckOne(w, vc03PrintLeaf(w), maxRows).kind != "" })
 
 	// ---- run -------------------------------------------------------------------------
 	var mu sync.Mutex
